@@ -9,14 +9,14 @@ NA = {
 }
 TEXT = {
  "C01": "seeded search over generated user programs (1-3 threads; submit/cancel/callbacks/shutdown in every form/del/get_reusable_executor/interpreter exit), task outcomes (return, raise, unpicklable either way, worker death), idle time-outs firing adversarially and worker kills at operation boundaries; liveness decided exactly (no enabled task and no timer = deadlock; only identical non-mutating pollers left = livelock), then every future must be terminal",
- "C02": "seeded kill-point search: SIGKILL/SIGSEGV/SIGTERM at random kernel-operation indices of a worker's life plus os._exit/self-kill from tasks and initializers; oracle over the final futures (own outcome or the one BrokenProcessPool object, TerminatedWorkerError naming true exit statuses), later submit, flags, every worker dead and reaped",
+ "C02": "seeded kill-point search: SIGKILL/SIGSEGV/SIGTERM at random kernel-operation indices of a worker's life plus os._exit/self-kill from tasks and initializers; oracle over the final futures (own outcome or the one BrokenProcessPool object, TerminatedWorkerError naming true exit statuses), later submit, flags, every worker dead and reaped; a family where the death is timed at another worker's idle exit with a top-up submit (from the main thread or a done-callback); runs that never quiesce are decided by bounded liveness (death noticed within 20 s + 3 J of virtual time while the manager is in its normal loop)",
  "C03": "seeded search over concurrent submitters, cancels, maps with random chunk sizes and unequal iterables, time-outs/respawns and resizes; every value compared with a reference evaluation, executions counted in an omniscient log (<=1, 0 if cancelled, 1 otherwise), map output compared with builtin map",
- "C04": "seeded search over mixes of faulty tasks (every BaseException kind, unpicklable/too-large arguments, unpicklable results, raising callbacks) among healthy ones with bursts larger than the call queue; per-future outcome model with remote traceback, pool never broken, slot semaphore and pending/running bookkeeping restored, fresh submit works",
- "C05": "(incl. late pickling errors right before the shutdown and a probe that a collected executor really starts shutting down) seeded search over shutdown histories (waited, not waited, context manager, del+collection, interpreter exit) placed at every point relative to dispatch, completion, idle time-outs and respawn, with late pickling errors; every submitted task ran once and delivered, workers left with status 0 and were reaped, never broken, manager ended, later submit raises ShutdownExecutorError",
- "C06": "(incl. finished tasks that leave a subprocess or a busy nested executor behind) seeded search over pool states at the time of shutdown(kill_workers=True) / get_reusable_executor(kill_workers=True): queued, running (1e3 or 1e6 virtual seconds), nested executors two levels deep, grandchild processes, with and without psutil; call duration bounded in virtual time, futures fail with ShutdownExecutorError, whole process tree dead at return",
+ "C04": "seeded search over mixes of faulty tasks (every BaseException kind, unpicklable/too-large arguments, unpicklable results, raising callbacks) among healthy ones with bursts larger than the call queue; per-future outcome model with remote traceback, pool never broken, slot semaphore and pending/running bookkeeping restored, fresh submit works; done-callbacks that re-enter the executor (submit) from the manager or feeder thread",
+ "C05": "(incl. late pickling errors right before the shutdown and a probe that a collected executor really starts shutting down) seeded search over shutdown histories (waited, not waited, context manager, del+collection, interpreter exit) placed at every point relative to dispatch, completion, idle time-outs and respawn, with late pickling errors; every submitted task ran once and delivered, workers left with status 0 and were reaped, never broken, manager ended, later submit raises ShutdownExecutorError; shutdown racing with another thread's (first) submit, with a process-wide check that no manager thread or worker is alive when a waited shutdown returns",
+ "C06": "(incl. finished tasks that leave a subprocess or a busy nested executor behind) seeded search over pool states at the time of shutdown(kill_workers=True) / get_reusable_executor(kill_workers=True): queued, running (1e3 or 1e6 virtual seconds), nested executors two levels deep, grandchild processes, with and without psutil; call duration bounded in virtual time, futures fail with ShutdownExecutorError, whole process tree dead at return; forced shutdown arriving after an un-waited graceful shutdown",
  "C07": "(incl. a family where the next submit arrives exactly when the idle time-out expires) seeded search with time-outs down to 0 fired adversarially (starvation bound J) against dispatch, announcements, respawn, resize and shutdown; no kill injected: pool never broken, no TerminatedWorkerError, every task executed exactly once and delivered, workers exit 0",
- "C08": "per-step monitor (after every scheduler decision) of bodies executing and registered workers against the max_workers bound in force, over submits from several threads, time-outs, respawns and resizes; delivery checked on saturating batches of long tasks",
- "C09": "seeded histories of get_reusable_executor calls from 1-3 threads interleaved with submissions, crashes, shutdowns and time-outs, compared at each return with a reference model of the singleton (exact for one thread, schedule-independent clauses for racing threads)",
+ "C08": "per-step monitor (after every scheduler decision) of bodies executing and registered workers against the max_workers bound in force, over submits from several threads, time-outs, respawns and resizes; delivery checked on saturating batches of long tasks; a top-up race family: workers idle for exactly their time-out when a burst arrives, its last submit delayed at one of its own source lines",
+ "C09": "seeded histories of get_reusable_executor calls from 1-3 threads interleaved with submissions, crashes, shutdowns and time-outs, compared at each return with a reference model of the singleton (exact for one thread, schedule-independent clauses for racing threads); singleton invariant at every return: each instance ever handed out that is not the current one is shut down or broken",
  "C10": "seeded search over (old,new) in 1..4^2 with work in flight, idle time-outs and worker kills placed inside _resize; tasks keep their results, call returns, live worker count and kept-worker identity checked when nothing left meanwhile",
 }
 def main():
